@@ -77,6 +77,12 @@ func glueBehaviour(r *Rng, st *Stats, n int) {
 			o.LineLimit = r.Range(20, 80)
 			desc = append(desc, fmt.Sprint("line-limit=", o.LineLimit))
 		}
+		if r.Chance(45) {
+			// output formats: iife wraps the program in a function and (for
+			// Transform) turns tree shaking on, cjs/esm change the top-level scope
+			o.Format = []api.Format{api.FormatIIFE, api.FormatCommonJS, api.FormatESModule, api.FormatIIFE}[r.Intn(4)]
+			desc = append(desc, fmt.Sprint("format=", o.Format))
+		}
 		cases = append(cases, tcase{src: src, opts: o, desc: strings.Join(desc, ",")})
 	}
 	var progs []string
